@@ -39,7 +39,38 @@ impl Req {
     }
 }
 
-pub const CTX_NAMES: [&str; 4] = ["only-this-leaf", "sibling-set", "batch-256-first", "neighbour-set-then-deleted"];
+pub const CTX_NAMES: [&str; 6] = ["only-this-leaf", "sibling-set", "batch-256-first", "neighbour-set-then-deleted", "proved-then-two-leaves-removed-in-one-batch", "proved-then-range-written"];
+
+/// positions of the two extra leaves of contexts 4 and 5 (below 256: batch removal indices are bytes)
+pub fn extra_positions(r: &Req) -> (u64, u64) {
+    if r.index == 10 || r.index == 11 { (12, 13) } else { (10, 11) }
+}
+
+/// Contexts 4 and 5: the member has already been proved once against the tree; then the tree is changed by a
+/// batch call (which must not leave anything stale behind) and the member is proved again.
+pub fn mutate_after_first_proof(rln: &mut RLN, r: &Req, s: &mut Setup) -> Result<(), String> {
+    let (a, b) = extra_positions(r);
+    match r.ctx {
+        4 => {
+            rln.atomic_operation(0, rd(codec::vec_fr(&[])), rd(codec::vec_u8(&[a as u8, b as u8]))).map_err(|e| format!("batch removal failed: {e}"))?;
+            s.model.remove(a);
+            s.model.remove(b);
+        }
+        5 => {
+            let vs = vec![big(31), big(32), big(33)];
+            rln.set_leaves_from(20, rd(codec::vec_fr(&vs))).map_err(|e| format!("range write failed: {e}"))?;
+            for (k, v) in vs.iter().enumerate() {
+                s.model.set(20 + k as u64, v);
+            }
+        }
+        _ => return Ok(()),
+    }
+    let (path, bits) = s.model.path(r.index);
+    s.ci.path = path;
+    s.ci.bits = bits.iter().map(|x| big(*x as u64)).collect();
+    s.root = s.model.root();
+    Ok(())
+}
 
 pub struct Setup {
     pub model: IdealTree,
@@ -74,6 +105,14 @@ pub fn setup_tree(rln: &mut RLN, r: &Req) -> Result<Setup, String> {
             e(rln.set_leaves_from(0, rd(codec::vec_fr(&leaves))))?;
             for (k, v) in leaves.iter().enumerate() {
                 model.set(k as u64, v);
+            }
+        }
+        4 | 5 => {
+            let (a, b) = extra_positions(r);
+            for (k, pos) in [a, b].iter().enumerate() {
+                let v = big(77_000 + k as u64);
+                e(rln.set_leaf(*pos as usize, rd(codec::fr(&v))))?;
+                model.set(*pos, &v);
             }
         }
         3 => {
